@@ -29,12 +29,15 @@ def _scenes():
           "slab": {"lo": [0, 0, 2], "hi": [6, 6, 5], "eps": 2.0, "lorentz": {"f": 2e15, "g": 1e13, "de": 1.5}},
           "detectors": [{"kind": "energy", "name": "en", "lo": [1, 1, 1], "hi": [5, 5, 5], "switch": {"interval": 2}},
                         {"kind": "field", "name": "fd", "lo": [2, 2, 2], "hi": [4, 4, 4]}]}
-    return [("periodic-lossy", s1), ("pml-pec", s2), ("dispersive", s3)]
+    s4 = {"shape": [6, 6, 6], "bounds": {"min_x": "pec", "max_x": "pmc"}, "sources": [{"pos": [3, 3, 3], "pol": 1}], "method": "reversible",
+          "slab": {"lo": [1, 0, 2], "hi": [5, 6, 4], "eps": 2.0, "mu": 1.5, "sigma": 400.0, "sigma_m": 2e5},
+          "detectors": [{"kind": "energy", "name": "en", "lo": [1, 1, 1], "hi": [5, 5, 5]}, {"kind": "field", "name": "fd", "lo": [2, 2, 2], "hi": [4, 4, 4], "switch": {"interval": 3}}]}
+    return [("periodic-lossy", s1), ("pml-pec", s2), ("dispersive", s3), ("reversible-lossy-magnetic", s4)]
 
 
 def gen_cases(ctx):
     rng = random.Random(ctx.seed)
-    n = 3 if ctx.quick else 16
+    n = 4 if ctx.quick else 16
     sc = _scenes()
     for i in range(n):
         name, s = sc[i % len(sc)]
@@ -57,7 +60,10 @@ def observe(case):
 
     sc = case["scene"]
     T = sc["T"]
-    obj, arrays, config = S.build_scene(sc)
+    method = sc.get("method", "none")
+    obj, arrays, config = S.build_scene({k: v for k, v in sc.items() if k != "method"})
+    if method != "none":
+        arrays, config = S.attach_gradient(arrays, config, obj, method, num_checkpoints_reversible=1)
     key = jax.random.PRNGKey(0)
     events = []
 
@@ -67,7 +73,7 @@ def observe(case):
     def full(a):
         S.take_events()
         tt, out = fdtdx.run_fdtd(a, obj, config, show_progress=False)
-        events.append(H.ev(ev="run_start", kind="full", method="none", K=0))
+        events.append(H.ev(ev="run_start", kind="full", method=method, K=1 if method == "reversible" else 0))
         events.extend(H.norm_hook(e) for e in S.take_events())
         events.append(end(tt, out))
         return out
